@@ -376,6 +376,42 @@ class C04(Check):
                 failures.append(Failure("rule-acts-off-positive-rule-grid", "rule `IF SYSTEM TIME %s %d` (rule step %d) first acts at t=%s, expected %d (first positive multiple of the rule step where it holds)" % (rel, thr, rule, first_closed, t_act),
                                         {"schedule": s, "observed_first_closed": first_closed, "expected": t_act, "timeline": rows[:8]}))
 
+    def _same_step_schedules(self, ctx, n):
+        """designed: 2-4 `=` controls (sim time or clock time) whose DIFFERENT instants fall into one hydraulic step, with
+        random, mostly distinct priorities (so that priority order and time order disagree), every action changing its
+        target; report ALL -> judged by the timeline oracle: each instant is a solved time, values as specified"""
+        rng = ctx.rng
+        out = []
+        for _ in range(n):
+            hyd = rng.choice([900, 1800, 3600, 7200])
+            k = rng.randint(0, 20)
+            m = rng.randint(2, 4)
+            offs = sorted(rng.sample(range(1, hyd), m))
+            if rng.random() < 0.3:
+                offs[-1] = hyd  # the last one on the hydraulic grid
+            prios = rng.sample([0, 1, 2, 3, 4, 5], m)
+            sc = rng.choice([0, 0, 3600 * rng.randint(0, 23), rng.randint(0, 86399)])
+            init = {str(i): rng.randint(0, 1) for i in range(schedgen.NT)}
+            ctls = []
+            cur = dict(init)
+            tgts = [rng.randrange(schedgen.NT) for _ in range(m)]
+            for j, (o, p, tg) in enumerate(zip(offs, prios, tgts)):
+                t = k * hyd + o
+                v = 1 - cur[str(tg)]
+                cur[str(tg)] = v
+                if rng.random() < 0.7:
+                    cond = ("sim", "eq", t, 0)
+                else:
+                    cond = ("tod", "eq", (t + sc) % 86400, 1, 0)
+                ctls.append({"id": j, "kind": "P", "prio": p, "cond": cond, "then": [(tg, v)], "else": []})
+            rng.shuffle(ctls)  # registration order independent of time order
+            for j, c in enumerate(ctls):
+                c["id"] = j
+            out.append({"hyd": hyd, "rule": rng.choice([360, 600, hyd, 700]), "report": 0, "duration": (k + 3) * hyd, "start_clock": sc,
+                        "controls": ctls, "init": init})
+            ctx.count("same-step-designed")
+        return out
+
     def _rule_priority_oracle(self, ctx, failures):
         """two rules with the same time condition and opposite actions on one target: from the first positive rule
         timestep at which the condition holds the target has the value of the HIGHER priority rule (later registration
@@ -438,6 +474,7 @@ class C04(Check):
                 if c["cond"][1] != "eq":
                     c["cond"] = (c["cond"][0], "eq") + tuple(c["cond"][2:])
             scheds.append(s)
+        scheds += self._same_step_schedules(ctx, 16 if ctx.quick else 120)
         self._run_schedules(ctx, failures, broken, scheds, "random")
         self._rule_grid_oracle(ctx, failures)
         self._rule_priority_oracle(ctx, failures)
@@ -453,6 +490,7 @@ class C04(Check):
             for c in s["controls"]:
                 if c["cond"][1] != "eq":
                     c["cond"] = (c["cond"][0], "eq") + tuple(c["cond"][2:])
+        scheds += self._same_step_schedules(ctx, 40)
         self._run_schedules(ctx, failures, b2, scheds, "search")
         self._rule_grid_oracle(ctx, failures)
         self._rule_priority_oracle(ctx, failures)
